@@ -224,31 +224,10 @@ func mainCheck(a []string) int {
 	}
 	// A region that cannot be lifted any more (anchor gone, interface changed) makes the check inconclusive, but
 	// the harnesses that do not use it are still run: a violation they find is still a violation.
-	var failedRegions []string
-	var liftNotes []string
-	extra, lerr := liftRegions(&spec)
-	for lerr != nil {
-		fmt.Println("LIFT ERROR (anchor not found or region not liftable):", lerr)
-		liftNotes = append(liftNotes, "lift error: "+lerr.Error())
-		bad := ""
-		for _, r := range spec.Regions {
-			if strings.Contains(lerr.Error(), "region "+r.Name+":") {
-				bad = r.Name
-			}
-		}
-		if bad == "" {
-			writeEvidence(&spec, tier, seed, nil, time.Since(t0).Seconds(), 0, liftNotes, nil)
-			return 3
-		}
-		failedRegions = append(failedRegions, bad)
-		var keep []lift.Region
-		for _, r := range spec.Regions {
-			if r.Name != bad {
-				keep = append(keep, r)
-			}
-		}
-		spec.Regions = keep
-		extra, lerr = liftRegions(&spec)
+	extra, failedRegions, liftNotes, fatal := liftDegrading(&spec)
+	if fatal {
+		writeEvidence(&spec, tier, seed, nil, time.Since(t0).Seconds(), 0, liftNotes, nil)
+		return 3
 	}
 	sym.SkipFilesMentioning = failedRegions
 	ld, err := sym.Load(spec.PackageDir, hdirs, extra)
@@ -442,6 +421,35 @@ func mainCheck(a []string) int {
 	return verdict
 }
 
+// liftDegrading lifts the spec's regions; a region that cannot be lifted is dropped (and reported) and the rest is
+// lifted again. fatal: the error could not be attributed to a region.
+func liftDegrading(spec *Spec) (extra map[string][]byte, failedRegions []string, notes []string, fatal bool) {
+	extra, lerr := liftRegions(spec)
+	for lerr != nil {
+		fmt.Println("LIFT ERROR (anchor not found or region not liftable):", lerr)
+		notes = append(notes, "lift error: "+lerr.Error())
+		bad := ""
+		for _, r := range spec.Regions {
+			if strings.Contains(lerr.Error(), "region "+r.Name+":") {
+				bad = r.Name
+			}
+		}
+		if bad == "" {
+			return nil, failedRegions, notes, true
+		}
+		failedRegions = append(failedRegions, bad)
+		var keep []lift.Region
+		for _, r := range spec.Regions {
+			if r.Name != bad {
+				keep = append(keep, r)
+			}
+		}
+		spec.Regions = keep
+		extra, lerr = liftRegions(spec)
+	}
+	return extra, failedRegions, notes, false
+}
+
 // runIncluded loads another spec file and runs its instances as part of property `prop`.
 func runIncluded(name, prop, tier, only string, known map[string]bool, twoRun bool) ([]*instResult, error) {
 	b, err := os.ReadFile(filepath.Join(verifRoot, "specs", name+".json"))
@@ -460,13 +468,20 @@ func runIncluded(name, prop, tier, only string, known map[string]bool, twoRun bo
 	for _, h := range spec.HarnessDirs {
 		hdirs = append(hdirs, filepath.Join(verifRoot, h))
 	}
-	extra, err := liftRegions(spec)
-	if err != nil {
-		return nil, fmt.Errorf("lift: %v", err)
+	extra, failed, lnotes, fatal := liftDegrading(spec)
+	if fatal {
+		return nil, fmt.Errorf("lift: %v", lnotes)
 	}
+	prevSkip := sym.SkipFilesMentioning
+	sym.SkipFilesMentioning = failed
+	defer func() { sym.SkipFilesMentioning = prevSkip }()
 	ld, err := sym.Load(spec.PackageDir, hdirs, extra)
 	if err != nil {
 		return nil, err
+	}
+	var liftErrRes []*instResult
+	for _, n := range lnotes {
+		liftErrRes = append(liftErrRes, &instResult{name: "include:" + name, err: fmt.Errorf("%s", n), spec: &RunSpec{}})
 	}
 	type job struct {
 		r *RunSpec
@@ -516,7 +531,7 @@ func runIncluded(name, prop, tier, only string, known map[string]bool, twoRun bo
 		}(i)
 	}
 	wg.Wait()
-	return out, nil
+	return append(out, liftErrRes...), nil
 }
 
 func liftRegions(spec *Spec) (map[string][]byte, error) {
